@@ -133,13 +133,58 @@ sys.exit(0 if (tot == n and s == ref) else 1)
     return res
 
 
-def task_cx(tier):
+def task_cx(tier, only=None):
     from chempy.printing import numbers
 
-    return cxrun.run_harness("cx/C20_numbers.py", timeout=300 if tier == "quick" else 1200,
+    return cxrun.run_harness("cx/C20_numbers.py", timeout=300 if tier == "quick" else 1200, only=only,
                              functions=[env.describe(numbers._latex_pow_10), env.describe(numbers._unicode_pow_10), env.describe(numbers._html_pow_10),
                                         env.describe(numbers._number_to_X)], replay_note="power-of-ten rendering")
 
 
+REPLAY_UNIT = '''
+from chempy.printing.numbers import _number_to_X, number_to_scientific_latex, number_to_scientific_unicode, number_to_scientific_html
+from chempy.units import default_units as u
+bad = []
+for q in (1.5 * u.metre / u.second, 2.5e-7 * u.molar, 3.0 * u.metre ** 2):
+    for flt in ("1.5e-07", "2.5"):
+        pow10 = lambda s, m: "<" + s + "|" + m + ">"
+        core = ("<%s|%s>" % tuple(flt.split("e"))) if "e" in flt else flt
+        a = _number_to_X(q, None, None, lambda mag: flt, lambda un: "UNIT_A", pow10, space=" ")
+        b = _number_to_X(q, None, None, lambda mag: flt, lambda un: "unit_b", pow10, space="~")
+        c = _number_to_X(q, None, None, lambda mag: flt, lambda un: "UNIT_A", pow10, space=" ")
+        if (a, b, c) != (core + " UNIT_A", core + "~unit_b", core + " UNIT_A"): bad.append((str(q), flt, a, b, c))
+    first = number_to_scientific_unicode(q)
+    number_to_scientific_latex(q); number_to_scientific_html(q)
+    if number_to_scientific_unicode(q) != first: bad.append((str(q), "unicode rendering changed after the other formats were used", first, number_to_scientific_unicode(q)))
+for b in bad: print("MISMATCH", b)
+sys.exit(1 if bad else 0)
+'''
+
+
+def task_unit_sequence():
+    """concrete sanity (NOT solver evidence: real `quantities` objects carry no symbolic content and CrossHair does not get through the
+    conversion within 300 s): the unit is rendered by the unit formatter and separator of THE CALL, whatever was asked before"""
+    import subprocess
+    import sys as _sys
+
+    src = "import sys\nsys.path.insert(0, %r)\n" % env.REPO + REPLAY_UNIT
+    r = subprocess.run([_sys.executable, "-c", src], capture_output=True, text=True, timeout=300)
+    from chempy.printing import numbers
+
+    res = dict(engine="concrete", functions=[env.describe(numbers._number_to_X)], obligations=1, discharged=1 if r.returncode == 0 else 0, violations=[],
+               queries=0, twin="n/a", bounds="3 quantities x 2 spellings x 3 calls in sequence (concrete sanity, not counted as solver evidence)",
+               sample={"sequence": "format A, format B, format A on the same quantity"})
+    if r.returncode == 1 and "MISMATCH" in r.stdout:
+        res["violations"].append(dict(key="unit_sequence", desc="unit placement depends on earlier calls: %s" % r.stdout[-300:], replay_src=REPLAY_UNIT))
+    elif r.returncode != 0:
+        res["inconclusive"] = ["unit sequence could not be evaluated: %s" % r.stderr[-200:]]
+    res["status"] = "violation" if res["violations"] else ("inconclusive" if res.get("inconclusive") else "discharged")
+    return res
+
+
 def tasks(tier, seed):
-    return [dict(id="C20.roman", fn="task_roman", kwargs={}, timeout=600), dict(id="C20.pow10_and_split", fn="task_cx", kwargs=dict(tier=tier), timeout=3000)]
+    ts = [dict(id="C20.roman", fn="task_roman", kwargs={}, timeout=1800)]
+    ts.append(dict(id="C20.unit_sequence", fn="task_unit_sequence", kwargs={}, timeout=600))
+    for h in ("latex", "unicode", "html", "number_to_X", "unpadded_exponent"):
+        ts.append(dict(id="C20.%s" % h, fn="task_cx", kwargs=dict(tier=tier, only="_h_" + h), timeout=3000))
+    return ts
